@@ -382,3 +382,7 @@ func TestC17Conc(t *testing.T) {
 	runSchedTest(t, schedSpec{prop: "C17", test: "TestC17Conc", genOps: genTextRace, minN: 2, maxN: 3, setup: setupProfile,
 		rule: "a generated store, one whole-log rewrite (compact or plan) and 1-2 concurrent title / body edits (JSON and --body-stdin), parked / resumed by the controller or free-running; oracle: linearizability - every acknowledged text is what show returns afterwards (the last one in the serial order), none is reverted by the rewrite; non-trivial = executions overlap and at least one park landed (or free-running)"})
 }
+
+func TestC09Faults(t *testing.T) {
+	runFaultErrTest(t, "C09", "TestC09Faults", func(rt *rapid.T, w *World, pre *Snapshot) Op { return Op{Kind: "prune_yes", Agent: "pruner"} })
+}
